@@ -208,10 +208,10 @@ pub fn run(tier: Tier) -> i32 {
     }
     // strings that are not language codes must give None
     let iso: Vec<&str> = ISO639_1.split(' ').collect();
-    // only strings that are language codes in no standard and no spelling: empty / blank, digits, single
-    // letters, two lowercase letters outside ISO 639-1, doubled codes, long gibberish. (Case variants, region
-    // suffixes, 3-letter ISO 639-2 codes and language names are left unconstrained: a more lenient lookup
-    // is not what the statement forbids.)
+    // strings that are not language codes: empty / blank, digits, single letters, two lowercase letters
+    // outside ISO 639-1, doubled / prefixed codes, long gibberish, other casings and padded forms of the
+    // codes, language names. (Region-tagged forms such as pt-BR and 3-letter ISO 639-2 codes
+    // are language codes of other standards and are left unconstrained.)
     let mut non_codes: Vec<String> = vec!["".into(), " ".into(), "1".into(), "42".into(), "0x".into(), "--".into(), "xyzzy".repeat(200)];
     for a in b'a'..=b'z' {
         non_codes.push((a as char).to_string());
@@ -227,6 +227,16 @@ pub fn run(tier: Tier) -> i32 {
         non_codes.push(format!("{c}{c}"));
         non_codes.push(format!("{c}1"));
         non_codes.push(format!("q{c}"));
+        // ISO 639-1 codes are two lower-case letters: other casings and padded forms are not codes
+        non_codes.push(c.to_uppercase());
+        non_codes.push(format!("{}{}", c[..1].to_uppercase(), &c[1..]));
+        non_codes.push(format!(" {c}"));
+        non_codes.push(format!("{c} "));
+        non_codes.push(format!("{c}\n"));
+    }
+    // language NAMES are not language codes
+    for name in ["english", "English", "french", "français", "francais", "spanish", "español", "castellano", "portuguese", "português", "italian", "italiano", "german", "deutsch", "Deutsch", "dutch", "nederlands"] {
+        non_codes.push(name.to_string());
     }
     for s in &non_codes {
         acc.states += 1;
@@ -247,5 +257,5 @@ pub fn run(tier: Tier) -> i32 {
         "rule": "for each of the 7 (Language::L, L::new()) pairs: every word sequence of length <= k over the full vocabulary through text2digits, the interpreter trait methods step by step on a builder, and find/find_iter/replace_stream/replace_text x thresholds; basic_annotate on all token vectors over the ambiguity alphabet; lookup of the 7 ISO codes judged by a behaviour fingerprint over the union vocabulary; every 1-2 letter lowercase string that is not an ISO 639-1 code, plus blank, digits, doubled / prefixed codes and long gibberish, must give None",
         "bounds": {"sigma_full_depth": k, "annotate_depth": tier.pick(4, 5), "fingerprint_words": union.len(), "non_codes": non_codes.len()},
     });
-    ctx.finish(total, cov, vec!["other real ISO 639-1 codes (e.g. 'ru'), case variants, region suffixes, ISO 639-2 codes and language names are unconstrained".into()])
+    ctx.finish(total, cov, vec!["other real ISO 639-1 codes (e.g. 'ru'), region-tagged forms (pt-BR) and ISO 639-2 codes are unconstrained".into()])
 }
